@@ -52,7 +52,7 @@ const uint8_t *cap_map(int ch, size_t *len)
 	size_t n = cap_size(ch);
 	if (n + 1 > g_capbuf_alloc[ch]) {
 		g_capbuf_alloc[ch] = (n + 1) * 2 + 4096;
-		g_capbuf[ch] = realloc(g_capbuf[ch], g_capbuf_alloc[ch]);
+		g_capbuf[ch] = persistent_realloc(g_capbuf[ch], g_capbuf_alloc[ch]);
 		if (!g_capbuf[ch]) die("oom");
 	}
 	ssize_t r = n ? pread(g_capfd[ch], g_capbuf[ch], n, 0) : 0;
@@ -158,3 +158,81 @@ int __wrap_close(int fd)
 	}
 	return __real_close(fd);
 }
+
+/* ------------------------------------------------------------ run arena */
+/* In the uninstrumented build every allocation made while a simulated run is
+ * in progress comes from a bump arena that is reset and pattern-filled before
+ * each run.  Heap addresses and heap garbage are then identical in every run
+ * of a plan, in a long-lived worker and in a fresh replay process, so library
+ * paths that read uninitialised memory (stale pointers included) replay. */
+#ifdef GMSIM_ARENA
+void *__real_malloc(size_t);
+void __real_free(void *);
+void *__real_calloc(size_t, size_t);
+void *__real_realloc(void *, size_t);
+
+#define ARENA_SIZE (24u << 20)
+static uint8_t g_arena[ARENA_SIZE] __attribute__((aligned(64)));
+static size_t g_arena_used, g_arena_high;
+static int g_arena_on;
+
+void arena_begin(void)
+{
+	if (g_arena_high) memset(g_arena, 0xBE, g_arena_high);
+	g_arena_used = 0;
+	g_arena_on = 1;
+}
+void arena_end(void)
+{
+	if (g_arena_used > g_arena_high) g_arena_high = g_arena_used;
+	g_arena_on = 0;
+}
+static int in_arena(const void *p) { return (const uint8_t *)p >= g_arena && (const uint8_t *)p < g_arena + ARENA_SIZE; }
+
+static void *arena_alloc(size_t n)
+{
+	size_t need = ((n + 15) & ~(size_t)15) + 16;
+	if (g_arena_used + need > ARENA_SIZE) return NULL;
+	uint8_t *p = g_arena + g_arena_used;
+	g_arena_used += need;
+	if (g_arena_used > g_arena_high) g_arena_high = g_arena_used;
+	*(size_t *)p = n;
+	return p + 16;
+}
+void *__wrap_malloc(size_t n)
+{
+	if (g_arena_on) { void *p = arena_alloc(n); if (p) return p; }
+	return __real_malloc(n);
+}
+void *__wrap_calloc(size_t a, size_t b)
+{
+	if (g_arena_on && (b == 0 || a <= (size_t)-1 / b)) {
+		void *p = arena_alloc(a * b);
+		if (p) { memset(p, 0, a * b); return p; }
+	}
+	return __real_calloc(a, b);
+}
+void *__wrap_realloc(void *old, size_t n)
+{
+	if (old && in_arena(old)) {
+		size_t on = *(size_t *)((uint8_t *)old - 16);
+		void *p = g_arena_on ? arena_alloc(n) : NULL;
+		if (!p) p = __real_malloc(n);
+		if (p) memcpy(p, old, on < n ? on : n);
+		return p;
+	}
+	if (!old && g_arena_on) { void *p = arena_alloc(n); if (p) return p; }
+	return __real_realloc(old, n);
+}
+void __wrap_free(void *p)
+{
+	if (!p) return;
+	if (in_arena(p)) { memset(p, 0x55, *(size_t *)((uint8_t *)p - 16)); return; }
+	__real_free(p);
+}
+void *persistent_realloc(void *p, size_t n) { return __real_realloc(p, n); }
+#else
+void arena_begin(void) { }
+void arena_end(void) { }
+void *persistent_realloc(void *p, size_t n) { return realloc(p, n); }
+#endif
